@@ -1,6 +1,10 @@
 package zzverif
 
 import (
+	"verifsim/simos"
+	"syscall"
+	"path/filepath"
+	"regexp"
 	"verifsim/simclock"
 	"encoding/json"
 	"fmt"
@@ -12,6 +16,9 @@ import (
 )
 
 func init() { registerWorld("queue", queueWorld) }
+
+// a topic's disk queue data file (a channel's has "topic:channel" in its name)
+var topicQueueFileRe = regexp.MustCompile(`^[^:]+\.diskqueue\.[0-9]+\.dat$`)
 
 // enforced oracles per property check
 var qEnforce = map[string][]string{
@@ -75,6 +82,13 @@ func genQCfg(rc *RunCtx) QCfg {
 		c.MemQueueSize = 10000
 	case "C07":
 		c.TLS = r.Chance(1, 2)
+	case "C13":
+		// separate fault configuration: writes to a topic's disk queue fail now and then
+		// (the publisher is told; nothing may be counted for a refused publish)
+		c.TopicDiskFaults = r.Pick(0, 0, 0, 5, 20)
+		if c.TopicDiskFaults > 0 {
+			c.MemQueueSize = int64(r.Pick(0, 1))
+		}
 	case "C05":
 		c.Restarts = r.Range(1, 3)
 	case "C12":
@@ -235,6 +249,9 @@ func genQOps(rc *RunCtx, c QCfg) []Op {
 		if o.Kind != "adv" && o.Kind != "stats" && o.Kind != "restart" && o.Kind != "sub" && o.Kind != "cls" && r.Chance(w.burst, 100) {
 			o.Burst = true
 		}
+		if (rc.Prop == "C01" || rc.Prop == "ALL" || rc.Prop == "C08") && r.Chance(1, 25) {
+			add(Op{Kind: "createpub", A: int64(r.Intn(8)), B: int64(r.Intn(8)), C: int64(r.Intn(4))})
+		}
 		if o.Kind == "admin" && (o.S == "delete_channel" || o.S == "delete_topic") && (rc.Prop == "C08" || rc.Prop == "ALL") && r.Chance(1, 3) {
 			// the same object is asked for again while its deletion is still running
 			o.Burst = true
@@ -372,6 +389,17 @@ func queueWorld(rc *RunCtx) {
 		return
 	}
 	rc.Defer(func() { w.stopNSQD() })
+	if c.TopicDiskFaults > 0 {
+		frng := NewPRNG(rc.Seed ^ 0xd15c)
+		simos.Install(&simos.Hooks{Before: func(ev *simos.Event) error {
+			if ev.Op != "write" || !topicQueueFileRe.MatchString(filepath.Base(ev.Path)) || frng.Intn(c.TopicDiskFaults) != 0 {
+				return nil
+			}
+			rc.Fault("topic_queue_write_error")
+			return syscall.EIO
+		}})
+		rc.Defer(func() { simos.Install(nil) })
+	}
 	simclock.SetOffset(0)
 	rc.Defer(func() { simclock.SetOffset(0) })
 
@@ -549,6 +577,26 @@ func (w *qWorld) exec(op Op) {
 	case "stats":
 		w.settleIfBurst()
 		w.checkStats()
+		return
+	case "createpub":
+		// A channel is created over HTTP while the topic's pump is busy with an
+		// earlier publish; the moment the creation is acknowledged (the answer has
+		// been read - the daemon is NOT given time to settle) the next publish is
+		// sent. It was sent after the acknowledgement, so the new channel owes it.
+		w.settleIfBurst()
+		w.inBurst = true
+		if f := w.opPub(Op{Uid: op.Uid*16 + 1, Kind: "pub", A: 0, B: op.A, C: op.C % 2}); f != nil {
+			w.pending = append(w.pending, f)
+		}
+		if f := w.opAdmin(Op{Uid: op.Uid*16 + 2, Kind: "admin", S: "create_channel", A: op.A, B: op.B}); f != nil {
+			f() // waits for the HTTP answer only
+		}
+		if f := w.opPub(Op{Uid: op.Uid*16 + 3, Kind: "pub", A: 1, B: op.A, C: 0}); f != nil {
+			w.pending = append(w.pending, f)
+		}
+		w.rc.Probe("publish_right_after_channel_creation")
+		w.settle()
+		w.afterSettle()
 		return
 	case "admin":
 		completion = w.opAdmin(op)
